@@ -365,7 +365,7 @@ func vRunPipe(c *vPipeCase, observe func(tr *vTrace, k int, recs []*DataRecord) 
 			select {
 			case f := <-rpc.queuedRequests:
 				f()
-			case <-time.After(2 * time.Second):
+			case <-time.After(60 * time.Second):
 			}
 		}()
 		return done
